@@ -18,9 +18,9 @@ from qrv.oracles import so3
 LEVEL = "exploration"
 RULE = ("dimers and trimers with two-exciton states, site energies 11500-12700 1/cm, couplings 0-300 1/cm incl. exactly zero, transition widths 50-300 1/cm "
         "(different per molecule), Gaussian and Lorentzian line shapes, waiting-time points from a unitary or a relaxing evolution superoperator, random dipoles with "
-        "|d| in [0.3, 3]; polarisation 4-tuples XXXX, XXYY, XYXY, magic-angle-like and random (unit and non-unit) oblique ones; random proper rotations and "
-        "scale factors 0.4-2.5. distinct = (class, N, polarisation class, rounded parameters); non-trivial iff at least 4 pathways were built and the response is non-zero.")
-ASSUMPTIONS = ["dtol = 1e-12 and all non-zero dipole strengths >= 0.09 (the pathway filter compares |d|^2 products with an absolute threshold, which is not scale covariant)",
+        "|d| in [0.3, 3] (every third system with one weak transition, |d| in [0.01, 0.05]); polarisation 4-tuples XXXX, XXYY, XYXY, magic-angle-like and random (unit and non-unit) oblique ones; random proper rotations and "
+        "scale factors 0.01-30 (log-uniform). distinct = (class, N, polarisation class, rounded parameters); non-trivial iff at least 4 pathways were built and the response is non-zero.")
+ASSUMPTIONS = ["the calculator's default dtol = 1e-12 (the pathway filter compares |d|^2 with |d|_max * dtol; with that default it cannot remove a transition of the generated systems at any generated scale)",
                "responses are compared at 1e-9 of their maximum (metamorphic pairs of real runs)"]
 MIN_NONTRIVIAL = {"quick": 25, "thorough": 300}
 REQUIRED_CLAUSES = ["prefactor==exact-orientational-average", "rotation-of-dipoles", "rotation-of-polarisations", "fourth-power-scaling", "total==reph+nonr",
@@ -51,6 +51,11 @@ def gen_cases(tier, rng):
             v = rng.normal(size=3)
             v = v / numpy.linalg.norm(v) * rng.uniform(0.3, 3.0)
             dips.append([r3(x) for x in v])
+        if i % 3 == 1:
+            # one weakly allowed transition next to strong ones
+            k = int(rng.integers(N))
+            v = numpy.array(dips[k])
+            dips[k] = [float("%.3g" % x) for x in v / numpy.linalg.norm(v) * rng.uniform(0.01, 0.05)]
         widths = [r3(rng.uniform(50, 300)) for _ in range(N)]
         if uncoupled and (i // 4) % 2 == 1:
             widths = [widths[0]] * N          # equal widths / dephasing rates
@@ -203,7 +208,8 @@ def run_case(case, ctx):
     ctx.check("total==reph+nonr", float(numpy.max(numpy.abs(base[T] - base[qr.signal_REPH] - base[qr.signal_NONR]))), tol, det)
     R1 = Rotation.random(random_state=int(rng.integers(1 << 30))).as_matrix()
     R2 = Rotation.random(random_state=int(rng.integers(1 << 30))).as_matrix()
-    s = r3(rng.uniform(0.4, 2.5))
+    # scale factors over three and a half decades: the pathway filters must be relative to the dipole scale
+    s = float("%.3g" % (10 ** rng.uniform(-2.0, 1.5)))
     with ctx.lib("rotated / scaled runs", mechanism=None):
         r_d, _n = response(qr, case, out, rot=R1)
         r_p, _n = response(qr, case, out, polrot=R2)
